@@ -416,3 +416,40 @@ Definition c02_zp (p : Z) : c02_ops Z :=
     (fun a => Z.modulo (Z.opp a) p)
     (fun a b => Z.modulo (Z.mul a (c02_zp_inv p b)) p)
     (fun a => Z.eqb a 0) (fun a => Z.eqb a 0) (fun a b => Z.ltb b a) c02_zp_abslim.
+
+(* ---- Round 6: the MAGNITUDE dimension.
+   (1) the metamorphic transformation of the correspondence check: A' = diag(r) * A * diag(s) at list level
+       (the scalar multiple c*A = A*c is r = (1,...,1), s = (c,...,c)); b' = diag(r) * b. *)
+Section Scale.
+Variable F : Type.
+Variable ops : c02_ops F.
+Definition c02_scale2 (n : nat) (r s : seq F) (A : seq (seq F)) : seq (seq F) :=
+  mkseq (fun i => mkseq (fun j => omul ops (omul ops (nth (o0 ops) r i) (c02_get ops A i j)) (nth (o0 ops) s j)) n) n.
+Definition c02_scalev (n : nat) (r b : seq F) : seq F := mkseq (fun i => omul ops (nth (o0 ops) r i) (c02_vget ops b i)) n.
+Definition c02_scale (n : nat) (c : F) (A : seq (seq F)) : seq (seq F) := c02_scale2 n (nseq n (o1 ops)) (nseq n c) A.
+End Scale.
+
+(* (2) an instance of the field operations in which magnitudes EXIST: the rationals (Coq's Q, kept reduced), absreal = |.|.
+   It is the exact-arithmetic reading of double / long double / float (and of complex types with real entries); the
+   correspondence check runs it on matrices diag(2^e) * A * diag(2^f) on which the floating-point elimination is exact.
+   The pivot test `pivmax <cmp> <threshold>` of luDecomposition is RE-READ from densematrix.hh (Params_gen:
+   c02_param_lu_sing_cmp / _thr); the source reads `pivmax != real_type(0)`, which makes c02_q_pivzero the zero test
+   (theorem C02_lu_pivot_test_is_zero_test); any threshold makes it a magnitude test and the theorem false. *)
+From Coq Require Import QArith Qabs.
+Definition c02_q_limit : Q :=
+  if Z.ltb c02_param_abs_limit_exp10 0 then Qmake c02_param_abs_limit_mant (Z.to_pos (Z.pow 10 (Z.opp c02_param_abs_limit_exp10)))
+  else inject_Z (Z.mul c02_param_abs_limit_mant (Z.pow 10 c02_param_abs_limit_exp10)).
+Definition c02_q_lt (a b : Q) : bool := negb (Qle_bool b a).
+(* "singular ?" of luDecomposition: the negation of `pivmax <cmp> <threshold>` *)
+Definition c02_q_pivzero (x : Q) : bool :=
+  let thr := match c02_param_lu_sing_thr with O => Some 0%Q | S O => Some c02_q_limit | _ => None end in
+  match thr, c02_param_lu_sing_cmp with
+  | Some t, O => Qeq_bool (Qabs x) t            (* pivmax != t *)
+  | Some t, S O => Qle_bool (Qabs x) t            (* pivmax >  t *)
+  | Some t, S (S O) => c02_q_lt (Qabs x) t            (* pivmax >= t *)
+  | _, _ => true                                (* a test the translator does not know: every pivot counts as singular *)
+  end.
+Definition c02_q : c02_ops Q :=
+  C02Ops 0%Q 1%Q (fun a b => Qred (Qplus a b)) (fun a b => Qred (Qminus a b)) (fun a b => Qred (Qmult a b)) (fun a => Qred (Qopp a))
+    (fun a b => Qred (Qdiv a b))
+    (fun a => Qeq_bool a 0) c02_q_pivzero (fun a b => c02_q_lt (Qabs b) (Qabs a)) (fun a => c02_q_lt (Qabs a) c02_q_limit).
